@@ -180,16 +180,7 @@ def run(ck, ctx):
               f"iterable: {ast.unparse(it)}", pd.loc(lp))
         jumps = [x for x in ast.walk(lp) if isinstance(x, (ast.Break, ast.Return))]
         ck.ob("T-ITER", "Parser.parse_data: the line loop has no early exit", not jumps, "", pd.loc(lp))
-    fmt = m.func("simple_ddl_parser.output.core:Output.format")
-    floops = [n for n in ast.walk(fmt.node) if isinstance(n, ast.For)]
-    ck.ob("T-ITER", "Output.format: one loop over self.parser_output", len(floops) == 1 and access_path(floops[0].iter) == "self.parser_output",
-          "the formatter must walk the parser output once, in order", fmt.loc())
-    for lp in floops:
-        jumps = [x for x in ast.walk(lp) if isinstance(x, (ast.Break, ast.Return, ast.Continue))]
-        ck.ob("T-ITER", "Output.format: the loop has no early exit / skip", not jumps, "", fmt.loc(lp))
-        appends = [x for x in ast.walk(lp) if isinstance(x, ast.Call) and isinstance(x.func, ast.Attribute) and x.func.attr == "append"
-                   and access_path(x.func.value) == "self.final_result"]
-        ck.ob("T-ITER", "Output.format: each non-ALTER/INDEX entity is appended inside the loop", len(appends) == 1, "", fmt.loc(lp))
+    _concat(ck, ctx)
     # the formatter keeps no state besides its configuration, the result list and the table registry
     oc = m.classes.get(("simple_ddl_parser.output.core", "Output"))
     if oc is None:
@@ -217,3 +208,66 @@ def run(ck, ctx):
         "PLY's LRParser.parse() starts from an empty stack on every call and keeps nothing between calls but the lexer object",
         "declined: the line-based assembly of statements / skip of non-DDL lines (string machine over run-time text) and PLY's error "
         "recovery inside one unsupported statement (DESIGN 4 C03)"]
+
+
+def _concat(ck, ctx):
+    """O-concat: the formatter evaluated abstractly (objabs) on several orders of independent entities must return the in-order
+    concatenation of what it returns for each entity alone - however Output.format is written"""
+    import copy
+    import itertools
+    from ..objabs import format_output, ShapeMismatch
+    from ..pyabs import W, PyRaise, LexUnknown, NonUniform, deep_eq
+    from ..specs import alter as A
+    C = A.classes(ctx)
+    base = A.base_tables(ctx, C)
+
+    def w(*xs):
+        return W(list(xs) * 2)
+    ents = {
+        "table s1.t": base[0], "table t": base[2],
+        "sequence": {"schema": None, "sequence_name": w("s1", "Seq", "q_2"), "increment": 1},
+        "schema": {"schema_name": w("sc", "Sch", "s_5")},
+        "type": {"schema": None, "type_name": w("ty", "Mood", "t_3"), "base_type": "ENUM", "properties": {"values": [w("'a'", "'b'", "'c'")]}},
+        "ddl property": {"name": w("p", "Prop", "p_8"), "value": w("on", "1", "x")},
+    }
+    alone = {}
+    try:
+        for k, v in ents.items():
+            alone[k] = format_output(ctx, [copy.deepcopy(v)], "sql", False)
+        names = list(ents)
+        orders = [names, list(reversed(names)), names[2:] + names[:2], [names[1], names[3], names[0], names[5], names[4], names[2]],
+                  ["table s1.t", "table s1.t"], ["schema", "table t", "schema"]]
+        for order in orders:
+            got = format_output(ctx, [copy.deepcopy(ents[k]) for k in order], "sql", False)
+            exp = [x for k in order for x in alone[k]]
+            try:
+                ok = deep_eq(got, exp)
+            except NonUniform:
+                ok = False
+            ck.ob("O-concat", f"Output.format on the order {order}", ok,
+                  "the result of a script is the in-order concatenation of what each statement yields alone" +
+                  ("" if ok else f": got {len(got) if isinstance(got, list) else type(got).__name__} entries, expected {len(exp)}"),
+                  "Output.format (evaluated abstractly)")
+        # ALTER / INDEX results are merged into the table they follow - also when the same name is defined again later
+        tb = base[2]
+        alt = {"alter_table_name": copy.deepcopy(tb["table_name"]), "schema": None,
+               "unique": {"constraint_name": None, "columns": [copy.deepcopy(tb["columns"][0]["name"])]}}
+        idx = {"schema": None, "index_name": w("ix1", "I_a", "ix_9"), "unique": False, "clustered": False,
+               "table_name": copy.deepcopy(tb["table_name"]), "columns": [copy.deepcopy(tb["columns"][0]["name"])],
+               "detailed_columns": [{"name": copy.deepcopy(tb["columns"][0]["name"]), "order": "ASC", "nulls": "LAST"}]}
+        for label, st in (("ALTER", alt), ("CREATE INDEX", idx)):
+            merged = format_output(ctx, [copy.deepcopy(tb), copy.deepcopy(st)], "sql", False)
+            got = format_output(ctx, [copy.deepcopy(tb), copy.deepcopy(st), copy.deepcopy(tb), copy.deepcopy(ents["schema"])], "sql", False)
+            exp = list(merged) + list(alone["table t"]) + list(alone["schema"])
+            try:
+                ok = len(merged) == 1 and deep_eq(got, exp) and not deep_eq(merged, alone["table t"])
+            except NonUniform:
+                ok = False
+            ck.ob("O-concat", f"{label} is merged into the table it follows, also when that name is defined again later", ok,
+                  "a statement's outcome must not depend on the statements that follow it", "Output.format (evaluated abstractly)")
+    except PyRaise as pr:
+        ck.ob("O-concat", "Output.format raises on independent entities", False, f"{type(pr.exc).__name__}: {pr.exc}", "Output.format")
+    except ShapeMismatch as sm:
+        ck.ob("O-concat", "Output.format treats the names of one class differently", False, str(sm), "Output.format")
+    except (LexUnknown, NonUniform) as e:
+        raise AnalysisError(f"Output.format outside the interpreted subset: {e}")
